@@ -779,7 +779,7 @@ def gen_src(unit_name):
 
 
 GEN_SRC = {n: gen_src(n) for n in ("SrcKmpLps", "SrcShiftAndMasks", "SrcHorspoolNew", "SrcFenwick", "SrcBitEnc", "SrcBwt", "SrcPrescan")}
-GEN_SRC.update({n: gen_src(n) for n in ("SrcOrf", "SrcGc")})       # dialect "cf" (tools/rs2lean_cf.py)
+GEN_SRC.update({n: gen_src(n) for n in ("SrcOrf", "SrcGc", "SrcAlphabet")})       # dialect "cf" (tools/rs2lean_cf.py)
 
 
 # ------------------------------------------------------------------------------------------ theorem modules built here
@@ -817,7 +817,7 @@ def verify_modules(mods):
 
 
 EXTRACTORS = {
-    "C20": [gen_complement, GEN_SRC["SrcOrf"], GEN_SRC["SrcGc"]],
+    "C20": [gen_complement, GEN_SRC["SrcOrf"], GEN_SRC["SrcGc"], GEN_SRC["SrcAlphabet"]],
     "C17": [gen_dna2int],
     "C15": [gen_scales],
     # C01/C02: Thm/C01.lean and Thm/C02.lean import RbV.Thm.GenLimits / GenTbCodes and restate their theorems, and
